@@ -155,6 +155,8 @@ def _sig(rnd, s):
     """A bit signal in an expression: name or name[idx]; internal names with odd characters are escaped."""
     if s.startswith("1'b"):
         v = int(s[-1])
+        if rnd.random() < 0.1:
+            return rnd.choice(["1'd%d" % (v + 2 * rnd.randint(1, 4)), "1'h%x" % (v + 2 * rnd.randint(1, 7)), "1'b1%d" % v])     # oversized: only the low bit counts
         return rnd.choice(["1'b%d" % v, "1'B%d" % v, "1'h%d" % v, "1'd%d" % v])
     if '[' in s and s.endswith(']') and all(ch.isalnum() or ch == '_' for ch in s.split('[')[0]):
         return s
@@ -212,6 +214,8 @@ def render_verilog(mod, rnd):
             if all(s.startswith("1'b") for _, s in prs) and rnd.random() < 0.7:
                 val = int(''.join(s[-1] for _, s in prs), 2)
                 n = len(prs)
+                if rnd.random() < 0.25:
+                    val += rnd.randint(1, 3) << n       # a value wider than the stated size: the surplus high bits are truncated
                 lit = rnd.choice(["%d'b%s" % (n, format(val, '0%db' % n)), "%d'd%d" % (n, val), "%d'h%x" % (n, val)])
                 stm.append('assign %s = %s;' % (base, lit))
             else:
